@@ -75,7 +75,7 @@ impl MdkSqliteStorage {
         connection.execute_batch("PRAGMA foreign_keys = ON;")?;
         crate::migrations::run_migrations(&mut connection)?;
         Ok(Self {
-            connection: Arc::new(std::sync::Mutex::new(connection)),
+            connection: Arc::new(HookedMutex::new(connection)),
         })
     }
 
@@ -84,5 +84,105 @@ impl MdkSqliteStorage {
     pub fn verif_with_connection<T>(&self, f: impl FnOnce(&Connection) -> T) -> T {
         let conn = self.connection.lock().unwrap();
         f(&conn)
+    }
+}
+
+// ---------------------------------------------------------------------------------------------
+// Lock and yield-point interception for the controlled scheduler of the harness. `Mutex` below
+// replaces `std::sync::Mutex` for the connection and the key-generation lock when the feature is
+// on; without an installed hook it is a plain pass-through.
+// ---------------------------------------------------------------------------------------------
+
+use std::ops::{Deref, DerefMut};
+use std::sync::atomic::AtomicBool;
+
+/// Callbacks of the harness scheduler. `lock` is the address of the lock object.
+pub trait SchedHook: Send + Sync {
+    /// Called before a lock is taken; returns when the scheduler lets the calling thread take it.
+    fn acquire(&self, lock: usize, exclusive: bool);
+    /// Called after a lock guard was dropped.
+    fn release(&self, lock: usize, exclusive: bool);
+    /// A point between two steps that other threads can observe (file system, keyring).
+    fn yield_point(&self, label: &'static str);
+}
+
+static SCHED_ON: AtomicBool = AtomicBool::new(false);
+static SCHED: RwLock<Option<Arc<dyn SchedHook>>> = RwLock::new(None);
+
+/// Install or remove the scheduler hook (process-wide; the hook itself decides which threads it controls).
+pub fn set_sched_hook(h: Option<Arc<dyn SchedHook>>) {
+    SCHED_ON.store(h.is_some(), Ordering::SeqCst);
+    *SCHED.write().unwrap() = h;
+}
+
+fn hook() -> Option<Arc<dyn SchedHook>> {
+    if SCHED_ON.load(Ordering::Relaxed) {
+        SCHED.read().ok().and_then(|g| g.clone())
+    } else {
+        None
+    }
+}
+
+/// See [`SchedHook::yield_point`]
+pub fn yield_point(label: &'static str) {
+    if let Some(h) = hook() {
+        h.yield_point(label);
+    }
+}
+
+/// Drop-in for `std::sync::Mutex` that reports acquisitions and releases to the hook.
+#[derive(Debug, Default)]
+pub struct HookedMutex<T>(Mutex<T>);
+
+/// Guard of [`HookedMutex`]
+pub struct HookedGuard<'a, T> {
+    inner: Option<std::sync::MutexGuard<'a, T>>,
+    lock: usize,
+}
+
+impl<T> HookedMutex<T> {
+    /// See `std::sync::Mutex::new`
+    pub fn new(v: T) -> Self {
+        Self(Mutex::new(v))
+    }
+
+    /// See `std::sync::Mutex::lock`
+    pub fn lock(&self) -> Result<HookedGuard<'_, T>, std::sync::PoisonError<HookedGuard<'_, T>>> {
+        let lock = self as *const _ as usize;
+        if let Some(h) = hook() {
+            h.acquire(lock, true);
+        }
+        match self.0.lock() {
+            Ok(g) => Ok(HookedGuard {
+                inner: Some(g),
+                lock,
+            }),
+            Err(p) => Err(std::sync::PoisonError::new(HookedGuard {
+                inner: Some(p.into_inner()),
+                lock,
+            })),
+        }
+    }
+}
+
+impl<T> Deref for HookedGuard<'_, T> {
+    type Target = T;
+    fn deref(&self) -> &T {
+        self.inner.as_ref().unwrap()
+    }
+}
+
+impl<T> DerefMut for HookedGuard<'_, T> {
+    fn deref_mut(&mut self) -> &mut T {
+        self.inner.as_mut().unwrap()
+    }
+}
+
+impl<T> Drop for HookedGuard<'_, T> {
+    fn drop(&mut self) {
+        self.inner.take();
+        if let Some(h) = hook() {
+            h.release(self.lock, true);
+        }
     }
 }
